@@ -86,10 +86,11 @@ func zzStatusMessage(s *status.Status) string {
 func zzCodeString(c codes.Code) string { return "code" }
 
 type zzObj struct {
-	A int `json:"a"`
+	A int    `json:"a"`
+	P string `json:"p"`
 }
 
-const zzObjJSON = `{"a":7}`
+const zzObjJSON = `{"a":7,"p":"100%"}`
 
 func zzJSONMarshal(v any) ([]byte, error) { return []byte(zzObjJSON), nil }
 func zzJSONUnmarshal(data []byte, v any) error {
@@ -98,9 +99,12 @@ func zzJSONUnmarshal(data []byte, v any) error {
 	}
 	if o, ok := v.(*zzObj); ok {
 		o.A = 7
+		o.P = "100%"
 	}
 	return nil
 }
+
+var zzUnrelated = fmt.Errorf("an unrelated failure")
 
 var zzClasses = []error{ErrExist, ErrNotExist, ErrClosed, ErrInvalid, ErrNotAuthorized, ErrDataLoss,
 	ErrCommunication, ErrInternal, ErrConflict, ErrExhausted, ErrUnimplemented, ErrCanceled}
@@ -124,13 +128,21 @@ func zzC19Wrap() {
 	e := class
 	for i := 0; i < depth; i++ {
 		if embed && i == depth/2 {
-			e = EmbedObject(&zzObj{A: 7}, e)
+			e = EmbedObject(&zzObj{A: 7, P: "100%"}, e)
 			continue
 		}
-		e = fmt.Errorf("layer %d: %w", i, e)
+		switch vChoose("wrapKind", 3) {
+		case 0:
+			e = fmt.Errorf("layer %d: %w", i, e)
+		case 1:
+			e = fmt.Errorf("layer %d (100%% sure): %w", i, e)
+		case 2:
+			// two %w verbs: the class is reachable only through Unwrap() []error
+			e = fmt.Errorf("layer %d: %w after %w", i, e, zzUnrelated)
+		}
 	}
 	if embed && depth == 0 {
-		e = EmbedObject(&zzObj{A: 7}, e)
+		e = EmbedObject(&zzObj{A: 7, P: "100%"}, e)
 	}
 	w := GRPCWrap(e)
 	vReach("wrapped")
